@@ -279,9 +279,46 @@ def cappedOp (kind : String) (cap : Nat) (payload : List Byte) (ty : Ty) (v : Va
         toString (input.length - r2.length)
     | none => bytesHex e ++ " fault"
 
-def stepLine (_ : Unit) (line : String) : Unit × String :=
-  let r : Option String :=
-    match words line with
+/-- round 3: `ia|is <type> <dest> <value> <rest> <k|->` -/
+def intoOp (st : String) (ty : Ty) (d v : Val) (rest : List Byte) (k : Option Nat) : String :=
+  if !wfb ty v then "illformed" else
+  if st = "s" ∧ !ty.supportedS then "unsupported" else
+  let e := if st = "a" then encodeA ty v else encodeS ty v
+  let full := e ++ rest
+  let input := match k with
+    | some n => full.take n
+    | none => full
+  match (if st = "a" then decodeInto true ty d input else decodeIntoS true ty d input) with
+  | some (v', r) => bytesHex e ++ " " ++ showVal ty v' ++ " " ++ toString (input.length - r.length)
+  | none => bytesHex e ++ " fault"
+
+def stepCore (line : List String) : Option String :=
+    match line with
+    | ["consts"] => some constsLine
+    | ["ia", t, d, v, rest, k] | ["is", t, d, v, rest, k] => do
+        let ty ← parseTyStr t
+        let dv ← parseValStr ty d
+        let va ← parseValStr ty v
+        let rs ← parseBytes? rest
+        let kk ← if k = "-" then some none else k.toNat?.map some
+        pure (intoOp (if line.head? = some "ia" then "a" else "s") ty dv va rs kk)
+    | "tseqa" :: k :: items => do
+        let kn ← k.toNat?
+        let (ts, vs) ← parseItems items
+        if !wfbs ts vs then pure "illformed" else
+        let input := (encodeFieldsA ts vs).take kn
+        match decodeFieldsB ts input with
+        | some (vs', r) => pure (" ".intercalate (showFields ts vs') ++ " " ++ toString (input.length - r.length))
+        | none => pure "fault"
+    | "tseqs" :: k :: items => do
+        let kn ← k.toNat?
+        let (ts, vs) ← parseItems items
+        if !supportedSs ts then pure "unsupported" else
+        if !wfbs ts vs then pure "illformed" else
+        let input := (encodeFieldsS ts vs).take kn
+        match decFieldsS ts input with
+        | some (vs', r) => pure (" ".intercalate (showFields ts vs') ++ " " ++ toString (input.length - r.length))
+        | none => pure "fault"
     | ["sizes"] => some (" ".intercalate (allScs.map fun k => toString k.width))
     | ["sizes2"] => some (" ".intercalate ([Sc.u8, .i8, .i64, .u64].map fun k => toString k.width))
     | ["cap", kind, cap, payload, t, v, rest] => do
@@ -398,6 +435,13 @@ def stepLine (_ : Unit) (line : String) : Unit × String :=
             pure (seqTrip encodeFieldsS decFieldsS wfbs ts vs rs)
         | _ => none
     | _ => none
+
+def stepLine (_ : Unit) (line : String) : Unit × String :=
+  let r : Option String :=
+    match words line with
+    -- `pm <i> <op…>`: the op the harness ran before main(); the model has no "before"
+    | "pm" :: _ :: op => stepCore op
+    | ws => stepCore ws
   ((), r.getD "bad-op")
 
 def main : IO Unit := run () stepLine
